@@ -349,7 +349,7 @@ def build_extra():
     """PlatformBatchLightSystem._send_update_batch: the redundant-update skip is sound only if last_state records what
     the hardware was told last (BOUNDED: batches of 2 lights)"""
     C = ContractSet("C09", "batch light system: hardware state bookkeeping")
-    B = "BOUNDED: batches of at most 2 lights"
+    B = "BOUNDED: batches of at most %d lights" % common.bound(2, 3)
 
     def hw(I):
         return I.__dict__.setdefault("c09_hw", {})
@@ -382,7 +382,7 @@ def build_extra():
     C.ext("ClockBase.get_time", model=lambda I, env, a, k: VReal(z3.Real(I.fresh_name("now"))), trusted_reason="clock")
 
     def lights2(I, name):
-        n = 1 + I.ctx.fork(2)
+        n = 1 + I.ctx.fork(common.bound(2, 3))
         return I.new_list([VObj(Obj("PlatformBatchLight", ObjS("PlatformBatchLight", {}), "light%d" % i))
                            for i in range(n)], name)
 
